@@ -11,6 +11,8 @@ if REPO in sys.path:
 sys.path.insert(0, REPO)
 
 warnings.filterwarnings("ignore")
+# the solver calls warnings.simplefilter("once") on every run, which re-enables its model-validity warnings: keep them off the console
+warnings.showwarning = lambda *a, **k: None
 # hooks in the tree under test (none are needed today) are switched on by this guard
 os.environ.setdefault("PYBC_VERIF", "1")
 
